@@ -387,17 +387,18 @@ def u_data(root):
     # (2) the setter
     for cls in CLASSES:
         wanted = set(axes_names(eng, cls, ("", "_error", "_cov_mat")))
-        for compatible in (True, False):
-            for had_data in (True, False):
-                mk(eng, "FitBase", "_set_new_data", result=lambda vw: (log(vw.post, "set_new_data", vw.args["new_data"]), vw.eng.write_field(vw.post, vw.self, "_data_container", Part("container_of:" + getattr(vw.args["new_data"], "name", "raw"))), VNone())[2])
+        mk(eng, "FitBase", "_on_error_change", result=lambda vw: (log(vw.post, "on_error_change"), VNone())[1])          # its own effect (implicit chi2 -> covariance chi2, nodes marked) is proved in C01 / the sources unit
+        for compatible, had_data, implicit, declares in [(True, hd_, i_, d_) for hd_ in (True, False) for i_, d_ in ((False, False), (False, True), (True, True), (True, False))] + [(False, True, False, False), (False, False, False, False), (False, True, True, True)]:
+            if True:
+                mk(eng, "FitBase", "_set_new_data", result=lambda vw, declares=declares: (log(vw.post, "set_new_data", vw.args["new_data"]), vw.eng.write_field(vw.post, vw.self, "_data_container", Part("container_of:" + getattr(vw.args["new_data"], "name", "raw"), {"has_errors": VBool(z3.BoolVal(declares))})), VNone())[2])
                 mk(eng, "FitBase", "_set_new_parametric_model", result=lambda vw: (log(vw.post, "new_model"), vw.eng.write_field(vw.post, vw.self, "_param_model", Part("new_model")), VNone())[2])
                 c = Contract(cls, "data", "setter")
 
-                def post(vw, cls=cls, wanted=wanted, compatible=compatible, had_data=had_data):
+                def post(vw, cls=cls, wanted=wanted, compatible=compatible, had_data=had_data, implicit=implicit, declares=declares):
                     trace = fx(vw)
                     cont, model = vw.f(vw.post, vw.self, "_data_container"), vw.f(vw.post, vw.self, "_param_model")
                     if not compatible:
-                        out = [("data the cost function cannot handle is rejected", z3.BoolVal(vw.flow == "raise")), ("no new parametric model is built and nothing is marked", z3.BoolVal(not fx(vw, "new_model") and not marked(vw))),
+                        out = [("data the cost function cannot handle is rejected", z3.BoolVal(vw.flow == "raise")), ("no new parametric model is built and nothing is marked", z3.BoolVal(not fx(vw, "new_model") and not marked(vw) and not fx(vw, "on_error_change"))),
                                ("the minimizer keeps its results and its cost target (a rejected assignment leaves the fit as it was)", z3.BoolVal(not [x for x in trace if x[1] == "fitter" and x[0] in ("call", "set")]))]
                         if had_data:
                             out.append(("the previous container is installed again", z3.BoolVal(isinstance(cont, Part) and cont.name == "container_of:old_container")))
@@ -409,17 +410,20 @@ def u_data(root):
                             ("changes of the new parametric model's sources are delivered to this fit's _on_error_change", z3.BoolVal(len(wired) == 1 and isinstance(wired[0][3], VBound) and wired[0][3].name == "_on_error_change" and wired[0][3].recv.e is vw.self.e)),
                             ("EVERY property node computed from the container or the parametric model (values, uncertainties, covariance matrices of every axis) is marked for update", z3.BoolVal(wanted <= set(marked(vw)))),
                             ("the minimizer forgets the results obtained with the old data", z3.BoolVal(len(reset) >= 1)),
-                            ("the minimizer is pointed at the general cost function", z3.BoolVal(len(target) >= 1 and isinstance(target[-1][3], VStr) and target[-1][3].s == "chi2"))]
+                            ("the minimizer is pointed at the general cost function", z3.BoolVal(len(target) >= 1 and isinstance(target[-1][3], VStr) and target[-1][3].s == "chi2")),
+                            ("a fit still on the implicit no-errors chi2 whose new container declares uncertainties goes through _on_error_change AFTER the new parts are installed (the declared sources enter the cost); an explicit cost function is left alone",
+                             z3.BoolVal((len(fx(vw, "on_error_change")) >= 1 and trace.index(fx(vw, "on_error_change")[0]) > max(q_ for q_, x in enumerate(trace) if x[0] in ("new_model", "set_new_data"))) if (implicit and declares) else (not fx(vw, "on_error_change") or implicit)))]
                 c.ensures.append(post)
 
-                def init(e, st, me_, compatible=compatible, had_data=had_data):
+                def init(e, st, me_, compatible=compatible, had_data=had_data, implicit=implicit):
+                    e.write_field(st, me_, "_implicit_no_errors", VBool(z3.BoolVal(implicit)))
                     e.write_field(st, me_, "_nexus", RecNexus())
                     e.write_field(st, me_, "_fitter", Part("fitter"))
                     e.write_field(st, me_, "_data_container", Part("old_container") if had_data else VNone())
                     e.write_field(st, me_, "_param_model", Part("old_model") if had_data else VNone())
                     e.write_field(st, me_, "_cost_function", Part("cost_function", {"name": VStr("chi2"), "is_data_compatible": Fn(lambda e_, st_, a, kw: VTuple([VBool(z3.BoolVal(compatible)), VStr("reason")]))}))
                     return {"new_data": Part("given")}
-                eng.verify(cls, "data", "setter", init, contract=c, tag=f"[{cls},compatible={compatible},had_data={had_data}]")
+                eng.verify(cls, "data", "setter", init, contract=c, tag=f"[{cls},compatible={compatible},had_data={had_data},implicit_no_errors={implicit},new_container_declares_uncertainties={declares}]")
     return eng
 
 
@@ -636,7 +640,9 @@ def u_do_fit(root):
     eng.lib["kc"] = lambda e, st, a, kw, node: VNum(z3.IntVal(2)) if a[-1].s == "max_iterations" else VNum(z3.Real("convergence_limit"))
     eng.lib["float"] = lambda e, st, a, kw, node: a[0]
     eng.lib["abs"] = lambda e, st, a, kw, node: VNum(z3.If(a[0].real() >= 0, a[0].real(), -a[0].real()))
-    eng.lib["is_diagonal"] = lambda e, st, a, kw, node: VBool(z3.Bool("total_cov_mat_is_diagonal"))
+    eng.lib["is_diagonal"] = lambda e, st, a, kw, node: VBool(z3.Bool("is_diagonal:" + getattr(a[0], "tag", "?")))
+    inline(eng, "FitBase", "_uncertainties_are_uncorrelated", kind=None)
+    inline(eng, "XYFit", "_uncertainties_are_uncorrelated", kind=None)
     for cls in ("XYFit", "IndexedFit"):
         for mode in ("single", "second", "iterative"):
             for pointwise in (True, False):
@@ -647,6 +653,10 @@ def u_do_fit(root):
                 mk(eng, cls, "_second_fit_needed", result=lambda vw, mode=mode: VBool(z3.BoolVal(mode == "second")))
                 mk(eng, "FitBase", "has_errors", "getter", result=lambda vw: VBool(z3.Bool("has_errors")))
                 mk(eng, "FitBase", "total_cov_mat", "getter", result=lambda vw: Val("total_cov_mat"))
+                if cls == "XYFit":
+                    mk(eng, "XYFit", "total_cov_mat", "getter", result=lambda vw: Val("total_cov_mat"))
+                    mk(eng, "XYFit", "x_total_cov_mat", "getter", result=lambda vw: Val("x_total_cov_mat"))
+                    mk(eng, "XYFit", "y_total_cov_mat", "getter", result=lambda vw: Val("y_total_cov_mat"))
                 mk(eng, "FitBase", "cost_function_value", "getter", result=lambda vw: VNum(z3.FreshReal("cost")))
                 mk(eng, "FitBase", "parameter_names", "getter", result=lambda vw: VTuple([VStr(x) for x in NAMES]))
                 mk(eng, "FitBase", "_update_parameter_formatters", result=lambda vw: (log(vw.post, "formatters"), VNone())[1])
@@ -657,7 +667,7 @@ def u_do_fit(root):
                     mk(eng, "IndexedFit", "model", "getter", result=lambda vw: Val("model"))
                 c = Contract(cls, "do_fit")
 
-                def post(vw, mode=mode, pointwise=pointwise):
+                def post(vw, mode=mode, pointwise=pointwise, cls=cls):
                     if vw.flow == "raise":
                         return [("no exception", z3.BoolVal(False))]
                     ev = []
@@ -680,12 +690,13 @@ def u_do_fit(root):
                     else:
                         ok_seq = ok_seq and rest in (bracket(False, True), bracket(False, True) * 2)
                     target = [x for x in fx(vw, "set") if x[1] == "fitter" and x[2] == "parameter_to_minimize"]
-                    diag = z3.Bool("total_cov_mat_is_diagonal")
+                    # xy data: the projected total matrix is diagonal wherever the model slope vanishes (e.g. at the start) - the choice must rest on the matrices of the two axes
+                    diag = z3.And(z3.Bool("is_diagonal:x_total_cov_mat"), z3.Bool("is_diagonal:y_total_cov_mat")) if cls == "XYFit" else z3.Bool("is_diagonal:total_cov_mat")
                     out = [("model-relative sources take the data as reference for the first pass, then every minimisation is bracketed by freeze (before) and unfreeze (after) with the SAME first_fit flag; nothing is left open", z3.BoolVal(ok_seq and resets_ok)),
                            ("results loaded from a file no longer shadow the live ones", z3.BoolVal(isinstance(vw.f(vw.post, vw.self, "_loaded_result_dict"), VNone))),
                            ("the formatters are refreshed after the last minimisation, and the result dictionary is built last", z3.BoolVal(ev[-2:] == ["formatters", "result_dict"]))]
                     if pointwise:
-                        out.append(("the pointwise cost function is minimised iff the total covariance matrix is diagonal, else the general one; chosen before the first minimisation",
+                        out.append(("the pointwise cost function is minimised iff no declared correlation exists (xy: the x AND the y covariance matrix are diagonal; else: the total matrix is), else the general one; chosen before the first minimisation",
                                     z3.And(z3.BoolVal(len(target) == 1 and isinstance(target[0][3], VStr)), diag == z3.BoolVal(target[0][3].s == "chi2_pointwise")) if len(target) == 1 and isinstance(target[0][3], VStr) else z3.BoolVal(False)))
                     else:
                         out.append(("without a pointwise version the cost target is left alone", z3.BoolVal(not target)))
@@ -718,6 +729,8 @@ def u_do_fit_proof(root):
     eng.lib["float"] = lambda e, st, a, kw, node: a[0]
     eng.lib["abs"] = lambda e, st, a, kw, node: VNum(z3.If(a[0].real() >= 0, a[0].real(), -a[0].real()))
     eng.lib["is_diagonal"] = lambda e, st, a, kw, node: VBool(z3.Bool("total_cov_mat_is_diagonal"))
+    mk(eng, "FitBase", "_uncertainties_are_uncorrelated", result=lambda vw: VBool(z3.Bool("uncertainties_are_uncorrelated")))          # its definition is checked in the do_fit trace unit
+    mk(eng, "XYFit", "_uncertainties_are_uncorrelated", result=lambda vw: VBool(z3.Bool("uncertainties_are_uncorrelated")))
     for cls in ("XYFit", "IndexedFit", "HistFit", "UnbinnedFit"):
         pre = mk(eng, "FitBase", "_pre_fit_iteration", modifies=[("#bracket", "int", "")])
         pre.ensures.append(lambda vw: [Bk(vw, vw.post) == z3.If(Bk(vw, vw.pre) == 0, z3.If(first_of(vw), z3.IntVal(1), z3.IntVal(3)), z3.IntVal(-1))])
